@@ -69,7 +69,7 @@ def run(rep, tier, seed, tr_errors):
                 "arbitrary printable characters; every export is called; non-trivial = >= 3 elements and >= 1 parallel; distinct by structure")
     rep.trusted += ["Coq 8.16.1 kernel, vm_compute", "model coq/Circuit/Ident.v: tikz_components (one line per element of the connections, symbol table, label = symbol_{\\rm label|id}), sym_vars",
                     "to_latex (sympy printer), to_drawing (schemdraw/matplotlib) and the layout coordinates of to_circuitikz are only run for totality (oracles, not modelled)"]
-    thm_ok, names, out = lib.check_props_file(rep, PROPS_FILE, expect=["C20_one_component_per_element", "C20_one_variable_per_parameter"])
+    thm_ok, names, out = lib.check_props_file(rep, PROPS_FILE, expect=["C20_one_component_per_element", "C20_one_variable_per_parameter", "C20_variable_names_distinct_refuted"])
     n = 250 if tier == "quick" else 4000
     cases, direct = [], []
     slow = []      # exports that were abandoned after the time limit (sympy on large containers): not counted either way
@@ -80,6 +80,19 @@ def run(rep, tier, seed, tr_errors):
                 Circuit(Series([Parallel([Parallel([Resistor(), Capacitor()])])])), Circuit(Series([]))]
     cdc.SINGLE_PATH_PARALLELS = True
     specials.append(Circuit(Series([Resistor(), Parallel([Capacitor()]), Resistor()])))
+    # recorded finding (reproducer runs first): two different (element, parameter) pairs whose names key_label coincide
+    kf = lib.load_known_findings()
+    for f_ in kf.get("findings", []):
+        if f_.get("property") == PROP and "reproducer" in f_:
+            try:
+                from pyimpspec import parse_cdc as _p
+                c_ = _p(f_["reproducer"]["cdc"])
+                nv = len([s_ for s_ in c_.to_sympy().free_symbols if str(s_) != "f"])
+                if nv < sum(len(e_.get_values()) for e_ in c_.get_elements(recursive=True)):
+                    rep.known_finding("%s: %s" % (f_["id"], f_["what"]))
+                rep.evaluations += 1
+            except Exception:  # noqa
+                pass
     for i in range(n):
         c = specials[i] if i < len(specials) else cdc.rand_circuit(ctx, rng, depth=rng.randint(0, 3))
         if rng.random() < 0.4:
